@@ -49,6 +49,7 @@ pub static INFO: PropInfo = PropInfo {
         ("fill.full", 200),
         ("noreply.invalid", 2000),
         ("noreply.token-used-from-other-address.full", 20),
+        ("cross_challenge_same_id_or_user_data", 20),
         ("from.unknown", 1000),
         ("from.pending", 1000),
     ],
@@ -69,6 +70,9 @@ struct Ledger {
     issued: HashSet<(u64, Vec<u8>)>,
     /// challenges per token index (latest)
     challenge_of: HashMap<usize, (u64, Box<[u8; 300]>)>,
+    /// every (sequence, blob) issued in answer to a request of the identity (client id, user data) -
+    /// that is all a challenge carries; two tokens of one identity are interchangeable here
+    issued_for: HashMap<(u64, u64), HashSet<(u64, Vec<u8>)>>,
 }
 
 impl Ledger {
@@ -92,15 +96,22 @@ impl Ledger {
         }
     }
 
-    fn valid_response(&self, d: &[u8], protocol: u64) -> bool {
+    /// A response is valid for a half-open address iff it opens under the client-to-server key of the
+    /// token that address presented (`pending`, when the harness knows it; otherwise any ledger token)
+    /// and echoes a challenge this server issued for that token's client id and user data.
+    fn valid_response(&self, d: &[u8], protocol: u64, pending: Option<usize>) -> bool {
         if d.is_empty() || d[0] & 0xF != 3 {
             return false;
         }
-        for t in self.tokens.iter() {
+        for (i, t) in self.tokens.iter().enumerate() {
+            if pending.is_some_and(|p| p != i) {
+                continue;
+            }
             // hostile bytes: the crate's decoder may itself panic on them (C07), never let that unwind into the harness
             let opened = watchdog::catch(|| nsim::open(d, protocol, Some(&t.token.client_to_server_key))).ok().flatten();
             if let Some((_, OPacket::Response { token_sequence, token_data })) = opened {
-                if self.issued.contains(&(token_sequence, token_data.to_vec())) {
+                let ident = (t.token.client_id, crate::rng::fnv1a(&t.private.user_data));
+                if self.issued_for.get(&ident).is_some_and(|s| s.contains(&(token_sequence, token_data.to_vec()))) {
                     return true;
                 }
             }
@@ -154,7 +165,11 @@ fn episode_inner(ctx: &Ctx, out: &mut Outcome, run_seed: u64, rr: &mut Rng, budg
         by_body: HashMap::new(),
         issued: HashSet::new(),
         challenge_of: HashMap::new(),
+        issued_for: HashMap::new(),
     };
+    // user data shared by several tokens of this run (a match id, say); ids are sometimes shared too
+    let mut shared_ud = [0u8; 256];
+    r.fill(&mut shared_ud);
     // another server instance (same key, protocol, addresses): its challenges are foreign to `srv`
     let mut other_srv = Srv::new(srv.now, 4, protocol, srv.addrs.clone(), srv.key, true);
     // fill state
@@ -217,7 +232,8 @@ fn episode_inner(ctx: &Ctx, out: &mut Outcome, run_seed: u64, rr: &mut Rng, budg
                 let short_lived = r.chance(1, 5);
                 let id = if r.chance(1, 6) { 10_000 } else { r.next_u64() >> 8 };
                 let life = if short_lived { 1 + r.below(5) } else { 600 };
-                let m = mint_for(&mut r, &srv, id, 15, life);
+                let ud = if r.chance(1, 2) { Some(shared_ud) } else { None };
+                let m = nsim::mint(&mut r, srv.now.as_secs(), srv.protocol_id, life, id, 15, &srv.addrs, ud, &srv.key);
                 let i = led.add(m);
                 Input { gen: "valid-request", class: "valid-token", from, bytes: request_of(&led.tokens[i]) }
             }
@@ -327,7 +343,7 @@ fn episode_inner(ctx: &Ctx, out: &mut Outcome, run_seed: u64, rr: &mut Rng, budg
             }
             64..=81 => {
                 // responses that are not valid for this server / address
-                let which = r.below(6);
+                let which = r.below(8);
                 // an address with neither a session nor a half-open entry (for replays of used responses)
                 let conn_now = connected_addrs(&srv);
                 let replay_from = pool.iter().copied().find(|p| !is_pending(&srv, *p) && !conn_now.contains(p));
@@ -374,6 +390,25 @@ fn episode_inner(ctx: &Ctx, out: &mut Outcome, run_seed: u64, rr: &mut Rng, budg
                             _ => (mk(ts, blob, &other_key(&key)), "response-wrong-key"),
                         }
                     }
+                    6 | 7 if pend_tok.is_some() && led.challenge_of.keys().any(|j| Some(*j) != pend_tok) => {
+                        // the half-open address answers with a challenge the server issued for ANOTHER token
+                        // (preferably one with the same client id or the same user data, but not both: that would be the same identity)
+                        let i = pend_tok.unwrap();
+                        let ti = &led.tokens[i];
+                        let mut cands: Vec<usize> = led.challenge_of.keys().copied().filter(|j| *j != i).collect();
+                        cands.sort_unstable();
+                        let close: Vec<usize> = cands
+                            .iter()
+                            .copied()
+                            .filter(|j| (led.tokens[*j].token.client_id == ti.token.client_id) != (led.tokens[*j].private.user_data == ti.private.user_data))
+                            .collect();
+                        let j = if !close.is_empty() { *r.pick(&close) } else { *r.pick(&cands) };
+                        if !close.is_empty() {
+                            out.count("cross_challenge_same_id_or_user_data");
+                        }
+                        let (tsj, blobj) = led.challenge_of[&j].clone();
+                        (mk(tsj, blobj, &ti.token.client_to_server_key), "response-other-tokens-challenge")
+                    }
                     4 if !used_responses.is_empty() && replay_from.is_some() => {
                         let (_, d) = r.pick(&used_responses).clone();
                         (d, "response-replayed-elsewhere")
@@ -386,7 +421,7 @@ fn episode_inner(ctx: &Ctx, out: &mut Outcome, run_seed: u64, rr: &mut Rng, budg
                     }
                 };
                 let from = if class == "response-replayed-elsewhere" { replay_from.unwrap() } else { from };
-                if led.valid_response(&d, protocol) && is_pending(&srv, from) {
+                if led.valid_response(&d, protocol, pending_tok.get(&from).copied()) && is_pending(&srv, from) {
                     // cannot be guaranteed invalid for this address: leave it to the ledger
                     Input { gen: "invalid-response", class: "valid-response", from, bytes: d }
                 } else {
@@ -446,7 +481,7 @@ fn episode_inner(ctx: &Ctx, out: &mut Outcome, run_seed: u64, rr: &mut Rng, budg
         out.count(if was_pending { "from.pending" } else { "from.unknown" });
         out.count("in_scope_datagrams");
         let valid_tok = led.valid_token(&d, srv.now);
-        let valid_resp = was_pending && led.valid_response(&d, protocol);
+        let valid_resp = was_pending && led.valid_response(&d, protocol, pending_tok.get(&from).copied());
         let s = &mut srv;
         let res = match watchdog::guarded("NetcodeServer::process_packet", &d, || s.process(from, &d)) {
             Ok(r) => r,
@@ -579,6 +614,8 @@ fn is_pending(srv: &Srv, a: SocketAddr) -> bool {
 fn note_challenge(led: &mut Ledger, reply: &[u8], protocol: u64, i: usize) -> bool {
     if let Some((_, OPacket::Challenge { token_sequence, token_data })) = nsim::open(reply, protocol, Some(&led.tokens[i].token.server_to_client_key)) {
         led.issued.insert((token_sequence, token_data.to_vec()));
+        let ident = (led.tokens[i].token.client_id, crate::rng::fnv1a(&led.tokens[i].private.user_data));
+        led.issued_for.entry(ident).or_default().insert((token_sequence, token_data.to_vec()));
         led.challenge_of.insert(i, (token_sequence, token_data));
         true
     } else {
